@@ -38,7 +38,7 @@ import common as C
 
 PID = "C04"
 DRIVER = Path(__file__).resolve().parent / "c04_impl.py"
-TARGETS = ["Sim/LifecycleProofs.vo", "Sim/OverlapProofs.vo", "Props/C04.vo"]
+TARGETS = ["Sim/LifecycleProofs.vo", "Sim/LifecycleWarmup.vo", "Sim/OverlapProofs.vo", "Props/C04.vo"]
 CLOCKS = ["float", "int", "dur"]
 PRIOS = [5, 5, 5, 1, 10, 3, 7]
 QUIET_RS = ("NOT_INITIALIZED", "INITIALIZED", "STOPPED", "ENDED")
@@ -722,6 +722,9 @@ def coq_overlap(scratch, scs, obs):
     lst = C.parse_nat_list(out)
     if rc != 0 or lst is None:
         return {}, f"coqc failed on {f.name}: {out[-800:]}"
+    import re as _re
+    msz = _re.findall(r"=\s*(\d+)\s*:\s*nat", out)
+    coq_overlap.m2_states = int(msz[-1]) if msz else 0
     return {idx[j]: (j not in lst) for j in range(len(idx))}, None
 
 
@@ -887,6 +890,7 @@ def main(tier: str) -> int:
     run.cov["cases_not_representable"] = sum(1 for x in codes if x == 4)
     run.cov["overlap_outcomes_allowed_by_M2"] = sum(1 for v in allowed.values() if v)
     run.cov["overlap_outcomes_checked_against_M2"] = len(allowed)
+    run.cov["states"] = getattr(coq_overlap, "m2_states", 0)      # reachable states of M2 (unrestricted overlap, loose waits)
     flagged = {i for sig, (i, b) in bad_by_sig.items()}
     for want, sig, what in ((1, "model-impl-disagree", "Lifecycle.lcase_code: the model M1 and the implementation differ on this command sequence"),
                             (3, "coq-monitor-rejects", "Lifecycle.observed_ok: table / monitor reject the observed history"),
